@@ -59,6 +59,22 @@ TreeResolution ==
     /\ IPsOf(TreeCfg(1), <<TreeShapes[2], TreeShapes[6]>>) = { <<71, 33>> }   \* top.db, b.db next to the zone file
     /\ IPsOf(TreeCfg(4), <<TreeShapes[2]>>) = { <<73>> }
     /\ \A o \in Denotations(TreeCfg(1), <<TreeShapes[7]>>) : o.undef          \* "../b.db": not decided
+\* ---- the initial origin given as text (C07 "any origin"): which texts are names; a refused one leaves nothing to denote
+Rep(c, n) == [i \in 1..n |-> c]
+InitialOrigin ==
+  hist = <<>> =>
+    /\ OriginOfText(<<>>) = [st |-> "ok", origin |-> NoName]
+    /\ OriginOfText(<<101, 120, 97, 109, 112, 108, 101, 46>>) = [st |-> "ok", origin |-> Name(Example)]
+    /\ OriginOfText(<<101, 120, 97, 109, 112, 108, 101>>) = [st |-> "ok", origin |-> Name(Example)]          \* relative: completed with the root
+    /\ OriginOfText(<<46>>) = [st |-> "ok", origin |-> Name(<<>>)]
+    /\ OriginOfText(<<98, 97, 100, 46, 46, 111, 114, 105, 103, 105, 110, 46>>).st = "err"                                     \* empty label
+    /\ OriginOfText(<<46, 97, 46>>).st = "err" /\ OriginOfText(<<46, 46>>).st = "err"
+    /\ OriginOfText(Rep(97, MaxLabel) \o <<46>>).st = "ok" /\ OriginOfText(Rep(97, MaxLabel + 1) \o <<46>>).st = "err"
+    /\ OriginOfText(Rep(97, MaxLabel + 1)).st = "err"
+    /\ OriginOfText(<<92, 51, 48, 48, 46>>).st = "amb" /\ OriginOfText(<<97, 92>>).st = "amb"
+    /\ \A i \in 0..(NCfg - 1), q \in {<<>>, <<1>>, <<12, 22>>, <<25, 1>>} :
+         DenotationsO(CfgOf(i), <<98, 97, 100, 46, 46, 111, 114, 105, 103, 105, 110, 46>>, Lines(q)) = {[undef |-> FALSE, err |-> TRUE, errln |-> 0, recs |-> <<>>, nopen |-> 0]}
+    /\ DenotationsO(CfgOf(3), <<101, 120, 97, 109, 112, 108, 101>>, Lines(<<1, 22>>)) = Denotations(CfgOf(1), Lines(<<1, 22>>))
 \* ---- safety side
 Bounded == /\ depth = 0
            /\ Len(opens) <= MaxLines * (MaxDepth + 1)
